@@ -51,7 +51,7 @@ def main():
     args = [a for a in sys.argv[1:] if not a.startswith("-")]
     allc = "--all" in sys.argv
     verbose = "-v" in sys.argv
-    names = args or sorted(os.listdir(ROOT))
+    names = args or sorted(n for n in os.listdir(ROOT) if os.path.isdir(os.path.join(ROOT, n)))
     claimed = [c["property_id"] for c in json.load(open(os.path.join(VERIF, "MANIFEST.json")))["checks"]]
     with ThreadPool(8) as tp:
         res = tp.starmap(one, [(n, allc, claimed) for n in names])
